@@ -28,3 +28,11 @@ SEEDS = [
 	}
 ''')]},
 ]
+
+# --- third session
+SEEDS += [
+ {"name": "c15-mbr-entry-error-ignored-for-empty-slot", "properties": ["C15"], "expect": "C15-d|",
+  "edits": [e("partition/mbr/table.go", "		p, err := partitionFromBytes(i+1, b[start:end], logicalSectorSize, physicalSectorSize)\n		if err != nil {", "		p, err := partitionFromBytes(i+1, b[start:end], logicalSectorSize, physicalSectorSize)\n		if err != nil && b[start+4] != 0 {")]},
+ {"name": "c15-gpt-array-bound-on-wrapping-product", "properties": ["C15"], "expect": "C15-b|",
+  "edits": [e("partition/gpt/table.go", "	if partitionEntryCount > maxPartitionEntries {", "	if partitionEntryCount*partitionEntrySize > maxPartitionEntries*PartitionEntrySize {")]},
+]
